@@ -1,6 +1,7 @@
 """Sidecar contracts: src/DTAIDistanceC/DTAIDistanceC/dd_ed.c (C09, C08, C11, C20)."""
 from dvc.contracts import contract
 import specs.bounds  # noqa: F401
+from contracts import gens
 
 _REQ = ['l1 >= 1', 'l2 >= 1', 'length(s1) - off(s1) >= l1', 'length(s2) - off(s2) >= l2', 'off(s1) >= 0', 'off(s2) >= 0']
 
@@ -20,6 +21,7 @@ def _ed(name, metric, result):
                     variant='l2 - i'),
         },
         theories=('bounds',),
+        replay=gens.gen_ed(False),
         props=('C09', 'C08', 'C20'),
     )
 
